@@ -1,5 +1,8 @@
 //! simcheck — deterministic-simulation harness for assets_manager (see /verif/DESIGN.md).
 mod common;
+mod hist;
+mod model;
+mod recipe;
 mod ledger;
 mod lin;
 mod orch;
